@@ -20,7 +20,8 @@ Inductive tviol : Type :=
 | TvTermDuringData       (* C18: completion began while a data delivery was still in progress *)
 | TvNoTerminal           (* C18: every member ended but the sink saw no terminal message *)
 | TvAfterTerminal        (* C18: a delivery began after the terminal message began *)
-| TvPanic.               (* C17/C18 *)
+| TvPanic                (* C17/C18 *)
+| TvDisposedTwice.       (* C18 (talkback cells as scheduling points): a member was told to stop twice *)
 
 Definition is_begin_data (e : tevent) : bool :=
   match snd e with TBegin (DD _) => true | _ => false end.
